@@ -539,3 +539,10 @@ M('c11-count-before-match', [(EV, '''                let mut mismatch_reporter =
                 let mut mismatch_reporter = MismatchReporter::new_enabled();
 
                 if !match_inputs(pattern, Some(&mut mismatch_reporter))''')], {'C11': r'R11\.4', 'C03': r'R03\.5', 'C04': r'R04\.7'})
+
+# ---- loop form of the panic-message construction (neutral `teardown-panic-join`), broken in three ways ---------------------------
+_TPJ_OLD = '        let error_strings = errors\n            .iter()\n            .map(<MockError as ToString>::to_string)\n            .collect::<Vec<_>>();\n        panic!("{}", error_strings.join("\\n"));'
+_TPJ_LOOP = '        let mut message = crate::alloc::String::new();\n        for (index, error) in errors.iter().enumerate() {\n            if index > 0 {\n                message.push(\'\\n\');\n            }\n            message.push_str(&error.to_string());\n        }\n        panic!("{}", message);'
+M('c03-msgloop-skip-first', [(TD, _TPJ_OLD, _TPJ_LOOP.replace('errors.iter().enumerate()', 'errors.iter().enumerate().skip(1)'))], {'C03': r'R03\.3', 'C08': r'R08\.4'})
+M('c03-msgloop-break', [(TD, _TPJ_OLD, _TPJ_LOOP.replace("message.push_str(&error.to_string());", "message.push_str(&error.to_string());\n            break;"))], {'C03': r'R03\.3', 'C08': r'R08\.4'})
+M('c03-msgloop-first-only', [(TD, _TPJ_OLD, _TPJ_LOOP.replace("message.push_str(&error.to_string());", "if index == 0 { message.push_str(&error.to_string()); }"))], {'C03': r'R03\.3', 'C08': r'R08\.4'})
